@@ -71,7 +71,8 @@ def make_solver(case, ssm, vf):
                                 correct_asymptotic_underconfidence=(cal == "mle"))
     else:
         solver = pdq.solver_dynamic(strategy=st, constraint=constraint,
-                                    re_linearize_after_calibration=(cal == "dyn_relin"))
+                                    re_linearize_after_calibration=(cal == "dyn_relin"),
+                                    **({"stop_gradient_through_calibration": False} if case.get("stopgrad") is False else {}))
     return solver, constraint
 
 
